@@ -33,6 +33,7 @@ func init() {
 	ruleText["R06.9"] = "same analysis as C08/R08.1: no run-time closure writes a variable captured from its generator (deferred-call wrappers and records are per execution)"
 	ruleText["R06.10"] = "in the deferred function of runCfg and its in-package callees (callDeferred and Walk excepted), every constant index X.child[k] lies under a test of X.kind or len(X.child) (enclosing if/switch/case, left operand of &&, or an earlier guard that leaves the block)"
 	ruleText["R06.11"] = "in every generator containing reflect.Value.CallSlice, each run-time closure that appends to frame.deferred also contains a CallSlice call (the ellipsis of f(s...) survives deferral)"
+	ruleText["R06.12"] = "in every deferred recover, the store of the recovered value into frame.recovered lies under no condition on frame.recovered itself: a panic raised by a deferred function replaces the one in progress"
 	ruleText["R06.5"] = "a converting recover assigns Panic{Value: <recovered>, ...} to the error result of its function"
 }
 
@@ -48,6 +49,7 @@ func runC06(c *Config, r *Report) {
 	c06R4(ic, r)
 	c06R10(ic, r)
 	c06R11(ic, r, "R06.11")
+	c06R12(ic, r)
 	// R06.6: defers, recover and panics inside instantiated generic code rest on the AST copy
 	// being identical to a freshly built tree (same analysis as C01/R01.4).
 	sub := newReport("C01")
@@ -909,5 +911,66 @@ func c06R11(ic *IC, r *Report, rule string) {
 	}
 	if n == 0 {
 		r.Errorf("%s: no closure recording a deferred call found in the generators using CallSlice (call, callBin expected)", rule)
+	}
+}
+
+// c06R12: a panic raised by a deferred function replaces the panic in progress (recover then
+// yields the new value, and Eval reports it). Wherever a deferred recover stores the value it
+// recovered into frame.recovered, the store is not conditional on the previous content of
+// that field (`if f.recovered == nil { f.recovered = r }` keeps the first panic).
+func c06R12(ic *IC, r *Report) {
+	info := ic.Info
+	recFld := ic.field("frame", "recovered")
+	if recFld == nil {
+		r.Errorf("anchor not resolved: frame.recovered")
+		return
+	}
+	n := 0
+	for _, name := range sortedKeys(ic.F) {
+		fi := ic.F[name]
+		if fi.Decl.Body == nil {
+			continue
+		}
+		ast.Inspect(fi.Decl.Body, func(m ast.Node) bool {
+			ds, ok := m.(*ast.DeferStmt)
+			if !ok {
+				return true
+			}
+			fl, ok := ds.Call.Fun.(*ast.FuncLit)
+			if !ok || len(callsInBuiltin(info, fl.Body, "recover")) == 0 {
+				return true
+			}
+			ast.Inspect(fl.Body, func(k ast.Node) bool {
+				as, ok := k.(*ast.AssignStmt)
+				if !ok || len(as.Lhs) != 1 || selField(info, as.Lhs[0]) != recFld {
+					return true
+				}
+				// the stored value is the recovered one (not a reset to nil)
+				if id := identOf(as.Rhs[0]); id != nil && id.Name == "nil" {
+					return true
+				}
+				n++
+				cond := ""
+				for _, g := range pathGuards(fl.Body, as) {
+					mentions := false
+					ast.Inspect(g.cond, func(q ast.Node) bool {
+						if se, ok := q.(*ast.SelectorExpr); ok && selField(info, se) == recFld {
+							mentions = true
+						}
+						return true
+					})
+					if mentions {
+						cond = types.ExprString(g.cond)
+					}
+				}
+				r.Check(cond == "", "R06.12", fmt.Sprintf("%s/recovered-panic-stored#%d/replaces-the-previous-one", name, n), ic.pos(as.Pos()), "the recovered value is stored whatever the field held",
+					"in "+name+" the panic recovered from a deferred call is stored into frame.recovered only under "+cond+": a deferred function that panics while a panic is in progress no longer replaces it (defer func() { panic(\"second\") }(); panic(\"first\") must end with \"second\")")
+				return true
+			})
+			return true
+		})
+	}
+	if n == 0 {
+		r.Errorf("R06.12: no deferred recover storing into frame.recovered found (callDeferred and runCfg are expected)")
 	}
 }
